@@ -224,6 +224,18 @@ impl Connection {
         Ok(())
     }
     
+    /// True when the peer has closed (or reset) the connection. Nothing is
+    /// consumed, so this can be asked of a connection that is not being read,
+    /// such as one blocked in BLPOP/BRPOP.
+    pub fn is_peer_closed(&self) -> bool {
+        let mut probe = [0u8; 1];
+        match self.stream.peek(&mut probe) {
+            Ok(0) => true,
+            Ok(_) => false,
+            Err(e) => !matches!(e.kind(), ErrorKind::WouldBlock | ErrorKind::Interrupted),
+        }
+    }
+    
     /// Check if the connection has data to write
     pub fn has_pending_writes(&self) -> bool {
         self.write_offset < self.write_buffer.len()
